@@ -1,6 +1,7 @@
 //! `cvh <property> --tier quick|thorough [--seed N] [--widen] [--replay file]`
 //! Prints one JSON report on the last line of stdout.
 mod c01;
+mod c01_eq;
 mod c02;
 mod c02_copy;
 mod c03;
